@@ -158,7 +158,7 @@ static std::string mdump(const MV &m) {
 // ---------------------------------------------------------------------------------------------------------
 // comparison of a Value with the model through the public read API
 static bool numeric_string(const std::string &s, int &kind, unsigned long long &u, long long &i, double &d) {
-    // the alphabet only has "12" (Natural), "-3" (Integer), "2.5" (Real), "s" and "" (not numbers)
+    // the alphabet only has "12" (Natural), "-3" (Integer), "2.5" (Real), and "s", "", "12x" (not numbers)
     if (s == "12") {
         kind = 2;
         u    = 12;
@@ -439,7 +439,7 @@ struct VSys {
                 "=true", "=false", "=null", "=7u", "=-3", "=2.5", "=\"s\"", "=\"\"", "=\"12\"", "={k:1}", "=[1,\"x\"]", "=R1", "=move(R1)", "=self",
                 "=String(\"s\")", "=const String&", "=StringView", "=ArrayT&&", "=ObjectT const&",
                 "=own array (const ArrayT& alias)", "=own object (const ObjectT& alias)", "=own string (const String& alias)",
-                "=18446744073709551615u", "=\"18446744073709551615\"",
+                "=18446744073709551615u", "=\"18446744073709551615\"", "=\"12x\"",
                 "=own first child (const Value&)", "=move(own first child)", "+=own first element (const Value&)", "first element=whole (const Value&)",
                 "+=7u", "+=\"s\"", "+=null", "+=true", "+=2.5", "+=[] (ArrayT&&)", "+=[9,8] (ArrayT&&)", "+=[9] (const ArrayT&)", "+={c:3} (ObjectT&&)",
                 "+={a:4} (const ObjectT&)", "+=R1", "+=move(R1)", "+=String&&", "+=StringView",
@@ -874,6 +874,9 @@ struct VSys {
                 V  &c     = X[SizeT(0)];
                 c         = (const V &)X;
                 M.items[0] = whole;
+            } else if (act == "=\"12x\"") {
+                X = "12x"; // a number followed by something else is not a number
+                M = mS("12x");
             } else if (act == "=18446744073709551615u") {
                 X = SizeT64{18446744073709551615ULL};
                 M = mUI(18446744073709551615ULL);
